@@ -1,12 +1,15 @@
 (* C17 - emitted self-tests build and pass.  Statements only.
-   PARTIAL: "builds" is decided by the strict scaffold interpreters of harness/extract_tests.py
-   (cross-checked against javac / g++ with stub runtimes), not proved.  What is proved is the
-   tie between the model of a running test (Tests/SelfTest.v) and the IR semantics, for the
-   languages whose encoders cannot assign members (Rust: &self, C++: const): there the test
-   computes exactly "sem_enc, sem_dec, compare under the test's equality".  For Go, Java and
-   Python (encoders store computed members back) the tie is re-checked on every evaluation
-   (outcome TInternal).  The verdicts themselves are computed by evaluation (vm_compute) of
-   typed / layout / check_enc / check_dec / selftest on the sample each emitted test builds. *)
+   PARTIAL.
+   * "builds" is decided by the strict scaffold interpreters of harness/extract_tests.py
+     (cross-checked against javac / g++ with stub runtimes), not proved.
+   * "passes" is a THEOREM for validated codecs whose encoder does not assign members (empty store
+     table: Rust &self, C++ const, and any Go / Java / Python program without length-of / checksum
+     store-backs): C17_validated_selftest_passes below, with its guard shown necessary by
+     C17_nested_checksum_refuted.
+   * For Go, Java and Python encoders that DO store computed members back, the verdict is computed
+     by evaluation (vm_compute of selftest on the sample each emitted test builds).  What a proof
+     would need in addition: the exact value a validated decoder returns for a length-of /
+     checksum member (Proofs/Validated.v only gives "some integer": ueq), see Proofs/SelfTestPass.v. *)
 From FP Require Import SelfTest SelfTestLemmas.
 
 Theorem C17_no_store_encoder_is_sem_enc :
@@ -26,3 +29,79 @@ Theorem C17_selftest_without_stores :
       end.
 Proof. exact selftest_nostores. Qed.
 Print Assumptions C17_selftest_without_stores.
+
+(* ---- validated codecs: the emitted test PASSES (Rust, C++: encoders that cannot assign members) ----
+   For every model, every IR program the proved-sound validator accepts (on each run: the IR
+   extracted from the real generator's output), every packet and every typed sample that the
+   wire specification lays out, the test "encode, decode, copy back [post], compare under
+   [eqs]" returns TPass - provided (all boolean, evaluable by the harness)
+     eqs_ok M eqs               the member lists of the emitted equality name existing members
+                                (no entry for a path = whole-object equality),
+     post_ok reg p post         the test copies back every member the encoder computes (length-of
+                                always, checksum when the algorithm is registered) and nothing else
+                                than computed members,
+     no_nested_computed reg M p no such member below the top level of the tested packet (in inline
+                                objects, referenced packets, payload packets of match fields).
+   The last guard is necessary: C17_nested_checksum_refuted. *)
+From FP Require Import Validate Validated Typed SelfTestPass.
+
+Theorem C17_validated_selftest_passes :
+  forall reg M O eqs post path p v,
+    validate_enc M O = true -> validate_dec_full M O = true ->
+    In (path, p) (all_packets M) ->
+    typed M fuel0 p v = true ->
+    layout_defined reg M path v = true ->
+    eqs_ok M eqs = true ->
+    post_ok reg p post = true ->
+    no_nested_computed reg M p = true ->
+    selftest reg M O [] eqs post path v = TPass.
+Proof. exact validated_selftest_passes. Qed.
+Print Assumptions C17_validated_selftest_passes.
+
+(* the link it rests on: "same message up to computed members" (what a validated decoder returns,
+   Proofs/Validated.v) implies equality under the test's comparison once the computed members of
+   the top level are copied back *)
+Theorem C17_same_message_compares_equal :
+  forall reg M eqs, NoDup (map fst (all_packets M)) -> eqs_ok M eqs = true ->
+  forall k path p post v v',
+    In (path, p) (all_packets M) ->
+    forallb (below_with M (plain reg M k)) (p_fields p) = true ->
+    post_ok reg p post = true ->
+    typed M (S k) p v = true ->
+    ueq (cs_test reg) M (S k) p v v' ->
+    teq M eqs (S k) path p (copy_members post v v') v' = true.
+Proof. exact ueq_teq_top. Qed.
+Print Assumptions C17_same_message_compares_equal.
+
+(* not vacuous: a root packet with a match payload behind a length-of field, a referenced and an
+   inline object, an object list and a checksum; every hypothesis holds (evaluated) and the
+   theorem gives TPass for registered / unregistered checksum and whole-object / member-list equality *)
+Example C17_instance_hypotheses :
+  validate_enc ex_M ex_O = true /\ validate_dec_full ex_M ex_O = true /\
+  packet_at ex_M "Msg" = Some ex_msg /\
+  typed ex_M fuel0 ex_msg ex_v = true /\
+  layout_defined true ex_M "Msg" ex_v = true /\ layout_defined false ex_M "Msg" ex_v = true /\
+  eqs_ok ex_M [] = true /\ eqs_ok ex_M ex_eqs_members = true /\
+  post_ok true ex_msg ex_post = true /\ post_ok false ex_msg ex_post = true /\
+  no_nested_computed true ex_M ex_msg = true /\ no_nested_computed false ex_M ex_msg = true.
+Proof. exact ex_hypotheses. Qed.
+
+Example C17_instance_passes :
+  forall reg eqs, (eqs = [] \/ eqs = ex_eqs_members) ->
+  selftest reg ex_M ex_O [] eqs ex_post "Msg" ex_v = TPass.
+Proof. exact ex_passes. Qed.
+Print Assumptions C17_instance_passes.
+
+(* REFUTED without the guard (finding tests-nested-checksum-not-copied): every other hypothesis
+   holds, a checksum member sits one level down, the algorithm is registered - the test fails;
+   unregistered, the guard holds and it passes *)
+Theorem C17_nested_checksum_refuted :
+  validate_enc rf_M rf_O = true /\ validate_dec_full rf_M rf_O = true /\
+  packet_at rf_M "P" = Some rf_p /\ typed rf_M fuel0 rf_p rf_v = true /\
+  layout_defined true rf_M "P" rf_v = true /\ eqs_ok rf_M [] = true /\ post_ok true rf_p [] = true /\
+  no_nested_computed true rf_M rf_p = false /\
+  selftest true rf_M rf_O [] [] [] "P" rf_v = TNotEqual /\
+  no_nested_computed false rf_M rf_p = true /\
+  selftest false rf_M rf_O [] [] [] "P" rf_v = TPass.
+Proof. exact nested_checksum_refuted. Qed.
+Print Assumptions C17_nested_checksum_refuted.
